@@ -33,7 +33,7 @@ def distribution(cases, iouts):
     return dict(kinds), dict(status)
 
 
-def run(ctx, pid, make_cases, oracle, props=None, model=True, assumptions=(), rule=""):
+def run(ctx, pid, make_cases, oracle, props=None, model=True, assumptions=(), rule="", extra=None):
     """make_cases(ctx, first_id) -> list of cases;  oracle(ctx, case, iout) records violations."""
     ok_build, blog = ctx.coq_build()
     ok_props, plog = ctx.coq_props(props) if ok_build else (False, blog)
@@ -84,6 +84,8 @@ def run(ctx, pid, make_cases, oracle, props=None, model=True, assumptions=(), ru
                           dict(case=replayable(dict(c, steps=c["steps"][:k + 1])), impl=str(a)[:2000], model=str(b)[:2000],
                                note="correspondence between coq/Reg.v (extracted to OCaml) and the Go handlers"),
                           "%s:corr" % pid, nofail=not ctx.violations)
+    if extra and not ctx.replay:
+        extra(cases, iouts)          # further differentials of the property (they search for a failing input as well)
     if not ok_props:
         ctx.violation("proof obligations of %s no longer check" % (props or "Props_%s.v" % pid),
                       dict(theorem_file="coq/%s.v" % (props or "Props_" + pid), log=plog[-1500:]),
